@@ -5,8 +5,13 @@ use crate::socket::core::CoreState;
 
 use std::collections::HashSet;
 use std::sync::Arc;
+use std::time::Duration;
 
 use parking_lot::RwLock;
+
+/// PUB drops rather than waits for ever: upper bound on how long one full peer may stall a
+/// publish when SNDTIMEO is -1 (the connection no longer caps that wait itself).
+const PUB_MAX_PEER_STALL: Duration = Duration::from_secs(30);
 
 /// Distributes messages to a set of connected peer URIs.
 #[derive(Debug, Default)]
@@ -82,7 +87,10 @@ impl Distributor {
       if let Some(conn_iface) = conn_iface_opt {
         let msg_clone = msg.clone(); // Clone message for each send
                                      // ISocketConnection.send_message() handles SNDTIMEO internally
-        match conn_iface.send_message(msg_clone).await {
+        match tokio::time::timeout(PUB_MAX_PEER_STALL, conn_iface.send_message(msg_clone))
+          .await
+          .unwrap_or(Err(ZmqError::Timeout))
+        {
           Ok(()) => {
             tracing::trace!(handle = core_handle, uri = %uri_to_send, "Distributor: send_message successful for URI.");
           }
@@ -154,7 +162,10 @@ impl Distributor {
       if let Some(conn_iface) = conn_iface_opt {
         // Clone the FrameBatch for each peer
         let frames_for_this_peer = zmtp_frames.clone();
-        match conn_iface.send_multipart(frames_for_this_peer).await {
+        match tokio::time::timeout(PUB_MAX_PEER_STALL, conn_iface.send_multipart(frames_for_this_peer))
+          .await
+          .unwrap_or(Err(ZmqError::Timeout))
+        {
           Ok(()) => {
             tracing::trace!(handle = core_handle, uri = %uri_to_send, "Distributor: send_multipart successful for URI.");
           }
